@@ -52,6 +52,14 @@ def run_case(c):
     if c["kind"] == "getdist":
         fc = fine(arr(c["pos"]), 0, len(c["pos"]) - 1)
         return dict(values=[float(fc.getDistance(Point2D(fh(a), fh(b)))).hex() for a, b in c["pts"]])
+    if c["kind"] == "interp":
+        fc = fine(arr(c["pos"]), c["si"], len(c["pos"]) - 1)
+        f = fc.interpFunction()
+        out = []
+        for sv in c["s"]:
+            p = f(fh(sv))
+            out.append([float(p.R).hex(), float(p.Z).hex(), float(fc.getDistance(p)).hex()])
+        return dict(points=out, dist_si=float(fc.distance[c["si"]]).hex())
     if c["kind"] == "zshift":
         table = {}
         regions = {}
